@@ -38,7 +38,8 @@ CLAIMED = {
         "text": "Every multi-step behaviour is replayed with the complete (sample, probability) history compared, mode() checked against "
                 "the TLC arg-max set; every interleaving of two samplers built from shared arrays (Ownership.tla) is replayed on all "
                 "five sampler classes; exchanged points are checked in every state of real multi-process runs and at every index of "
-                "the returned chains.",
+                "the returned chains; HamiltonianChain with 0-3 leap-frog steps per proposal is stepped with the invariants evaluated "
+                "after every step.",
         "note": "Trusted: TLC, lattice posteriors, fork start method. replace_last alone (without the probability update the worker "
                 "performs) is outside the property.",
         "ref": "DESIGN.md section 3 C03",
@@ -187,7 +188,8 @@ CLAIMED = {
                      "and fraction; every enumerated case run through the real sample_hdi in 8 call variants and judged by HdiTrace.tla",
         "text": "Exhaustive over samples of length 2..5 over 4 levels (quick) / 2..6 over 5 levels (thorough) and all fractions k/16, plus "
                 "seeded random samples up to 40 values with ties; TLC evaluates Good on the returned pair (any optimal window accepted), "
-                "equality of list/int/float/2-D-column variants, permutation invariance, affine covariance and input-unchanged.",
+                "equality of list/int/float/2-D-column variants, permutation invariance, affine covariance and input-unchanged; every sample "
+                "also under a concave monotone map (window widths equal to 7 digits), judged by Good as a sample of its own.",
         "note": "Trusted: TLC. Integer-valued samples and dyadic fractions; float-valued samples only through the exact float copies.",
         "ref": "DESIGN.md section 3 C13",
     },
@@ -197,7 +199,8 @@ CLAIMED = {
         "text": "For every chain length up to 10 (quick) / 14 (thorough), every burn up to n+1 and thin up to 4/6, get_parameter, get_sample, "
                 "get_probabilities and the marginal's sample must be exactly the rows TLC selects, with first dimension = retained count "
                 "(0 and 1 included); get_interval results for fractions k/8 and counts none/1/2/3/6 are projected to row ids and ranks and "
-                "TLC evaluates IntervalOK on each.",
+                "TLC evaluates IntervalOK on each; chains on a plateau log-density give events with TIED ranks (IsTop / InSomeTop: no "
+                "dropped row outranks a kept one, exact count).",
         "note": "Trusted: TLC; row identification by exact matching (rows and probabilities pairwise distinct). The derived thinning of "
                 "get_interval(samples=m) is a free parameter of the specification.",
         "ref": "DESIGN.md section 3 C14",
@@ -209,7 +212,8 @@ CLAIMED = {
                 "wrapper (ExactlyRequested, LenAgree); the grouped-loop arithmetic is checked for all n <= 700; run_for is driven by "
                 "TLC-enumerated budgets and per-step cost schedules (20 microseconds to 90 s) and its trace must satisfy "
                 "ExitOnlyAfterBudget, NoStepAfterBudget, StarvationFree; a real ChainPool must equal the serially advanced chains "
-                "under injected delays; PoolEqualsSerial is model-checked over all interleavings.",
+                "under injected delays; PoolEqualsSerial is model-checked over all interleavings; ParallelTempering.run_for with exchange "
+                "cycles of 0.4 to 12.5 simulated seconds is traced in the same format and judged by the same RunFor.tla.",
         "note": "Trusted: TLC, the fake clock (time advances only through step costs and 2 microseconds per read). Budgets above "
                 "35 minutes are not enumerated (32-bit microseconds).",
         "ref": "DESIGN.md section 3 C15",
